@@ -54,6 +54,8 @@ def import_pkg():
     import warnings
     warnings.filterwarnings('ignore')
     import numpy as np   # NumPy's floating-point error state is left at its default: it is part of the ambient state P4 watches
+    global IMPORT_PID
+    IMPORT_PID = os.getpid()      # the process that imports the package (library code may remember it)
     import kneeliverse
     f = os.path.realpath(kneeliverse.__file__)
     if not f.startswith(os.path.realpath(REPO_SRC) + os.sep):
@@ -101,6 +103,9 @@ def jdump(obj, path):
         json.dump(obj, f, indent=1, sort_keys=False)
         f.write('\n')
     os.replace(tmp, path)
+
+
+IMPORT_PID = None
 
 
 class HarnessError(Exception):
